@@ -1,5 +1,6 @@
 import PercevalModel.Proto
 import PercevalModel.Model.C10
+import PercevalModel.Model.C10Hist
 
 open Lean PM PM.Proto PM.C10
 
@@ -170,12 +171,64 @@ def handleCompose (j : Json) : Except String Json := do
         ("ps", match res.ps with | none => .null | some p => psJson p),
         ("tt", tt), ("U", rowsToJson rows)]
 
+
+/-! ### extension 3: histories of a long-lived processor (`Model/C10Hist.lean`) -/
+
+def locOf : String → Except String Loc
+  | "INPUT" => .ok .input | "OUTPUT" => .ok .output | "IN_OUT" => .ok .inout
+  | s => .error s!"bad location {s}"
+
+def hopOf (j : Json) : Except String HOp := do
+  match ← strOf j "op" with
+  | "herald" => return .herald (← natOf j "mode") (← natOf j "exp") (← optStr (← j.getObjVal? "name"))
+  | "port" => return .port (← natOf j "mode") (← natOf j "size") (← strOf j "name") (← locOf (← strOf j "loc"))
+  | "rmport" => return .rmport (← natOf j "mode") (← locOf (← strOf j "loc"))
+  | "det" => return .det (← natOf j "mode") (← strOf j "name")
+  | "ps" => return .setps (← psOf (← j.getObjVal? "ps"))
+  | "add" => return .add (← sideOf (← j.getObjVal? "right")) (← rawMapOf (← j.getObjVal? "map")) (← boolOf j "keep_port")
+  | s => throw s!"bad history op {s}"
+
+def mtStr : MT → String
+  | .photonic => "PHOTONIC" | .herald => "HERALD" | .classical => "CLASSICAL"
+
+def expJson (e : Exp) : Json :=
+  Json.mkObj [("m", toJson e.nmoi), ("cs", toJson e.cs), ("nher", toJson e.nher),
+    ("mt", toJson (e.mt.map mtStr)), ("conn", toJson (e.side.conn)),
+    ("heralds", pairsJson e.side.heralds),
+    ("dets", .arr (e.dets.map fun d => match d with | none => Json.null | some s => .str s).toArray),
+    ("inp", .arr (e.inp.map portJson).toArray), ("outp", .arr (e.outp.map portJson).toArray),
+    ("in_names", optNames (portNames e.cs e.inp)), ("out_names", optNames (portNames e.cs e.outp)),
+    ("ps", match e.ps with | none => .null | some p => psJson p)]
+
+/-- `{"op": "hist", "fix_m0": b, "m": n | null, "ops": [...]}` -> the state after the construction and after every
+call, up to the first exception (`{"err": class}` is then the last entry) -/
+def handleHist (j : Json) : Except String Json := do
+  let fx ← boolOf j "fix_m0"
+  let m ← match j.getObjVal? "m" with
+    | .ok .null => pure none
+    | .ok x => some <$> x.getNat?
+    | .error _ => throw "missing m"
+  let ops ← (← arrOf j "ops").toList.mapM hopOf
+  match Exp.new m with
+  | .error x => return Json.mkObj [("trace", .arr #[errJson x.name])]
+  | .ok e0 =>
+    let rec go (e : Exp) (ops : List HOp) (acc : Array Json) : Array Json :=
+      match ops with
+      | [] => acc
+      | op :: rest =>
+        match stepH fx e op with
+        | .error x => acc.push (errJson x.name)
+        | .ok e' => go e' rest (acc.push (expJson e'))
+    return Json.mkObj [("trace", .arr (go e0 ops #[expJson e0])),
+                       ("no_herald_removal", .bool (noHeraldRemoval fx e0 ops))]
+
 def handle (j : Json) : Json :=
   let r : Except String Json :=
     match j.getObjVal? "op" with
     | .ok (.str "names") => handleNames j
     | .ok (.str "resolve") => handleResolve j
     | .ok (.str "compose") => handleCompose j
+    | .ok (.str "hist") => handleHist j
     | .ok _ => .error "unknown op"
     | .error _ => handleCompose j
   match r with
